@@ -292,6 +292,13 @@ def run(prog, chk):
         raise Broken("writer length contract: too few obligations found")
 
 
+    r5 = chk.rule("R5-declaration-parameter-names", "every declaration of a function of the writer's unit names its parameters as the "
+                  "definition does: two same-position parameters are never exchanged (callers follow the declaration)", primary=False, floor=20)
+    from .. import memrules
+    if memrules.declaration_parameter_agreement(prog, r5, units=("ciffile.c",)) < 20:
+        raise Broken("fewer than 20 declaration/definition pairs in ciffile.c")
+
+
 # fields of struct cif_string_analysis_s that are lengths of (parts of) the analysed string: each is <= length, with
 # equality for single-line strings (cif_analyze_string sets them all to the string length then)
 ANALYSIS_LENGTHS = ("length", "length_first", "length_last", "length_max")
